@@ -6,8 +6,11 @@ real FlowIRExperimentConfiguration (defaultEnvironment / environmentWithName / e
 WorkflowGraph.environmentForNode(node) and WorkflowGraph.environmentWithName(name, expand=False), built in memory the
 way WorkflowGraph.graphFromFlowIR does, with explicit system variables.
 
-Compared inside Coq with Env.Model.env_for_node / env_with_name (tsub = osexp = Env.Model.subst, fillin = identity),
-and the Python mirror of the C17 theorems is evaluated on the implementation's outputs."""
+Compared inside Coq with Env.Model.env_for_node / env_with_name (tsub = Env.Model.tm_sub, osexp = Env.Model.os_expand:
+executable models of string.Template.safe_substitute and posixpath.expandvars; fillin = identity), the two substitution
+functions also on their own (flowir.expand_vars / os.path.expandvars vs tm_sub / os_expand, bounded-exhaustive over a
+"$ { } A 1 space" alphabet plus random texts), and the Python mirror of the C17 theorems is evaluated on the
+implementation's outputs."""
 import itertools
 import json
 import os
@@ -23,9 +26,10 @@ from common import clist, cstr, cbool, cZ
 PROP = 'C17'
 COQ_DIR = 'Env'
 ASSUMPTIONS = [
-    'string.Template.safe_substitute and os.path.expandvars are not modelled: the theorems quantify over arbitrary '
-    'substitution functions; the correspondence instantiates both with Env.Model.subst and generates only values in '
-    'their common fragment ($NAME / ${NAME} with identifier names, no "$$", no lone "$", no backslash)',
+    'string.Template.safe_substitute and os.path.expandvars (posixpath, Python 3.12) are modelled by Env.Model.tm_sub / '
+    'os_expand on ASCII text; the environment theorems quantify over arbitrary substitution functions, the expansion '
+    'theorems are about these two models, tied by the correspondence on values with $NAME, ${NAME}, "$$", lone "$", '
+    'unterminated "${", non-identifier and digit-leading names',
     'FlowIR.fill_in (%(workflow-variable)s interpolation of values and of the environment name) is a Section function '
     'on values; generated values and names contain no "%(" so it is the identity in the correspondence',
     'platform names are "default" and one other platform "p"; both are listed in the document; '
@@ -184,9 +188,9 @@ def predicate(ctx, c, r):
                 ctx.fail(case, 'unexpanded value of a variable is not the selected platform\'s value layered over the '
                                'default platform\'s (kind=%s)' % kind, cls)
                 break
-        # imported by name
+        # imported by name (C17_imported: listed once - a second listing re-substitutes the imported value, "$$" -> "$")
         for v in imported:
-            if v not in pre and unexp.get(v) != launch[v]:
+            if v not in pre and dnames.count(v) == 1 and unexp.get(v) != launch[v]:
                 ctx.fail(case, 'a variable imported through DEFAULTS does not carry the launch value', cls)
                 break
     if set(unexp) - allowed - {'DEFAULTS'}:
@@ -213,6 +217,84 @@ def predicate(ctx, c, r):
             break
     nontriv = kind in ('named', 'default') and bool(sel)
     return kind, nontriv
+
+
+def held_predicate(ctx, c, r):
+    """mirror of C17_declared_spelling / C17_declared_filed / C17_declared_held on what FlowIRConcrete holds after from_dict"""
+    for plat in ('default', 'p'):
+        tab = c['envs'][plat]
+        names = [n for n, _ in tab]
+        want = {}
+        for m in set(n.lower() for n in names):
+            spellings = [n for n in names if n.lower() == m and n != m]
+            winner = spellings[-1] if spellings else m      # the last non-lower-case spelling, else the name itself
+            want[m] = [k for k, _ in dict(tab)[winner]]
+        held = r['held'][plat]
+        if len(held) != len(want) or {n: ks for n, ks in held} != want:
+            ctx.fail({'case': c, 'impl': r}, 'FlowIR.from_dict does not file each declared environment under the lower-case form of '
+                     'its name (the last declared non-lower-case spelling wins a collision)', [])
+            return
+
+
+def twin_of(rng, c):
+    """a second case that differs from c only in one launch variable that the environment neither imports (DEFAULTS), nor
+    gets as a search-path variable, nor references by name anywhere: C17_launch_independence says the results are equal"""
+    if select(c)[0] == 'default-launch':
+        return None
+    texts = [to_s(v) for plat in ('default', 'p') for _, kvs in c['envs'][plat] for _, v in kvs]
+    texts += [v for _, v in c['sysv']]
+    ok = []
+    for k, v in c['launch']:
+        if k in PATH_VARS or any(k in t for t in texts) or any(k in v2 for k2, v2 in c['launch'] if k2 != k):
+            continue
+        ok.append(k)
+    if not ok:
+        return None
+    x = rng.choice(ok)
+    t = dict(c)
+    if rng.random() < 0.5:
+        t['launch'] = [[k, v] for k, v in c['launch'] if k != x]
+    else:
+        t['launch'] = [[k, ('changed-' + v if k == x else v)] for k, v in c['launch']]
+    return t, x
+
+
+# ------------------------------------------------------------------ the substitution functions alone
+SUBST_M = [['A', 'x$A'], ['1', 'one'], ['A1', '<a1>'], ['1A', '<1a>'], ['AA', ''], [' ', 'sp'], ['A 1', 'a-1'], ['{', 'brace'], ['_', 'us']]
+
+
+def subst_cases(rng, tier):
+    alpha = ['$', '{', '}', 'A', '1', ' ']
+    out = []
+    for n in range(0, 5 if tier == 'quick' else 6):
+        for t in itertools.product(alpha, repeat=n):
+            out.append({'subst': {'m': SUBST_M, 's': ''.join(t)}})
+    pieces = ODD + LITS + ['$' + n for n in LNAMES[:6]] + ['${%s}' % n for n in LNAMES[:6]] + ['_', 'a', 'Z9', '\\', "'", '"', '%(A)s', '\n', '\t']
+    for _ in range(600 if tier == 'quick' else 6000):
+        m = [[k, rng.choice(['v-' + k, '$' + k, '', '${A}', 'a b'])] for k in LNAMES if rng.random() < 0.5]
+        out.append({'subst': {'m': m, 's': ''.join(rng.choice(pieces) for _ in range(rng.randint(1, 6)))}})
+    return out
+
+
+def explore_subst(ctx, cases):
+    results = run_impl(cases, nproc=2)
+    terms = []
+    for c, r in zip(cases, results):
+        m, s = c['subst']['m'], c['subst']['s']
+        # mirror of C17_literal_value: text without "$" is left alone by both
+        if '$' not in s and (r['tm'] != s or r['os'] != s):
+            ctx.fail({'case': c, 'impl': r}, 'a value without any "$" is changed by expansion', [])
+        terms.append('(%s, %s, (%s, %s))' % (cmap(m), cstr(s), cstr(r['tm']), cstr(r['os'])))
+    ctx.count('subst_texts', len(terms))
+    bad = ctx.model_mismatches(HEADER, terms, 'check_subst', chunk=1500, name='subst')
+    for k, i in enumerate(bad):
+        c = cases[i]
+        m = ''
+        if k < 3:
+            m = ctx.model_eval(HEADER, '(tm_sub %s %s, os_expand %s %s)' % (cmap(c['subst']['m']), cstr(c['subst']['s']),
+                                                                            cmap(c['subst']['m']), cstr(c['subst']['s'])))
+        ctx.disagree(c, results[i], m, 'C17 substitution: flowir.expand_vars (string.Template.safe_substitute) / os.path.expandvars vs '
+                                       'Env.Model.tm_sub / os_expand')
 
 
 # ------------------------------------------------------------------ generation
@@ -264,10 +346,14 @@ def exhaustive():
 
 VNAMES = ['A', 'B', 'C', 'PATH', 'HOME', 'LV', 'PYTHONPATH', 'LD_LIBRARY_PATH', 'PYTHONHOME', 'X1', 'lower_v', '_u',
           'INSTANCE_DIR']
-LNAMES = ['PATH', 'HOME', 'LV', 'LW', 'PYTHONPATH', 'LD_LIBRARY_PATH', 'PYTHONHOME', 'A', 'SECRET', 'TOKEN', 'X1', 'lower_v']
+LNAMES = ['PATH', 'HOME', 'LV', 'LW', 'PYTHONPATH', 'LD_LIBRARY_PATH', 'PYTHONHOME', 'A', 'SECRET', 'TOKEN', 'X1', 'lower_v',
+          '1X', 'A-B', '_']
 SNAMES = ['INSTANCE_DIR', 'FLOW_EXPERIMENT_NAME', 'FLOW_RUN_ID']
 LITS = ['x', '/opt/bin', ':', 'v-1', '.', '/', 'a b', '=']
 ENAMES = ['foo', 'bar', 'gnu-env', 'environment', 'e1']
+# outside the common $NAME / ${NAME} fragment of string.Template and os.path.expandvars
+ODD = ['$$', '$', '${', '}', '{', '${}', '${A-B}', '$1X', '${1X}', '$$A', '${A', '$A}', '${ A}', '$-', '$$$', '${A}${', '$LVx', '${LV}x',
+       '$A$B', '$ A', '${A$B}', '$_', '$__u']
 
 
 def gen_value(rng, refs):
@@ -280,9 +366,12 @@ def gen_value(rng, refs):
         return ''
     parts = []
     for _ in range(rng.randint(1, 4)):
-        if rng.random() < 0.45:
+        q = rng.random()
+        if q < 0.45:
             n = rng.choice(refs)
             parts.append('${%s}' % n if rng.random() < 0.5 else '$' + n)
+        elif q < 0.57:
+            parts.append(rng.choice(ODD))
         else:
             parts.append(rng.choice(LITS))
     return ''.join(parts)
@@ -305,7 +394,8 @@ def gen_env(rng, refs, launch_keys):
 
 
 def gen_case(rng):
-    launch = [[k, rng.choice(['L-' + k, '/l/bin:/l/usr', 'lv $LW' if k != 'LW' else 'lw', 'l${SECRET}' if k != 'SECRET' else 's', '1'])]
+    launch = [[k, rng.choice(['L-' + k, '/l/bin:/l/usr', 'lv $LW' if k != 'LW' else 'lw', 'l${SECRET}' if k != 'SECRET' else 's', '1',
+                              '$$' + k, '${' + k])]
               for k in LNAMES if rng.random() < 0.55]
     if rng.random() < 0.02:
         launch.append(['DEFAULTS', 'SECRET:TOKEN'])
@@ -368,7 +458,7 @@ def expressible(x):
     return x == UNKNOWN or isinstance(x, list)
 
 
-def explore(ctx, cases):
+def explore(ctx, cases, twins=()):
     import time
     t0 = time.time()
     results = run_impl(cases, nproc=6)
@@ -381,6 +471,7 @@ def explore(ctx, cases):
                      'returned non-string entries or modified the launch environment', [])
             continue
         kind, nontriv = predicate(ctx, c, r)
+        held_predicate(ctx, c, r)
         ctx.case(c, nontriv)
         ctx.count('kind_' + kind)
         ctx.count('platform_' + c['platform'])
@@ -399,6 +490,13 @@ def explore(ctx, cases):
                 low_terms.append(('(%s, %s)' % (ctab(c['envs'][plat]),
                                                 clist(r['held'][plat], lambda ne: '(%s, %s)' % (cstr(ne[0]), clist(ne[1], cstr)))),
                                   c['envs'][plat], r['held'][plat]))
+    for i, j, x in twins:     # mirror of C17_launch_independence
+        ri, rj = results[i], results[j]
+        ctx.count('twin_pairs')
+        if ri.get('full') != rj.get('full') or ri.get('unexp') != rj.get('unexp'):
+            ctx.fail({'case': cases[i], 'twin': cases[j], 'variable': x, 'impl': ri, 'impl_twin': rj},
+                     'a launch variable that is neither imported through DEFAULTS, nor a search-path variable of an interpreter '
+                     'component, nor referenced by any value changed the task environment', [])
     bad = ctx.model_mismatches(HEADER, [t[0] for t in terms], 'check_case', chunk=250)
     for k, i in enumerate(bad):
         _, c, r = terms[i]
@@ -441,26 +539,43 @@ def run(ctx):
                 '{lower,upper,mixed} x declared on neither/default/p/both x declared spelling x DEFAULTS on no/default/p layer x '
                 'interpreter x default environment declared; plus random documents (0-4 environments per platform, random '
                 'spellings incl. collisions, values with $N/${N} references to environment, launch, system and undefined '
-                'variables, YAML null/int/bool scalars, DEFAULTS lists) under random launch environments; non-trivial = a '
+                'variables, "$$", lone "$", unterminated and non-identifier references, YAML null/int/bool scalars, DEFAULTS lists) '
+                'under random launch environments; for 300 (thorough 3000) of them a twin differing in one unreferenced launch '
+                'variable; the two substitution functions alone on every text of length <= 4 (thorough 5) over "$ { } A 1 space" '
+                'plus 600 (6000) random texts; non-trivial = a '
                 'non-empty declared environment is selected (named or default); distinct by full case')
     cases = list(CORPUS) + exhaustive()
     ctx.count('exhaustive_product_cases', len(cases) - len(CORPUS))
     ctx.exhaustive = True
     nrand = 1200 if ctx.tier == 'quick' else 25000
-    for _ in range(nrand):
-        cases.append(gen_case(rng))
-    explore(ctx, cases)
+    rand = [gen_case(rng) for _ in range(nrand)]
+    twins = []
+    base = len(cases)
+    cases += rand
+    for i, c in enumerate(rand[:300 if ctx.tier == 'quick' else 3000]):
+        t = twin_of(rng, c)
+        if t:
+            twins.append((base + i, len(cases), t[1]))
+            cases.append(t[0])
+    explore(ctx, cases, twins)
+    explore_subst(ctx, subst_cases(rng, ctx.tier))
 
 
 def replay(ctx, path):
     d = json.load(open(path))
     c = d.get('case') or d.get('first', {}).get('case')
+    wrapper = {}
     if isinstance(c, dict) and 'case' in c:
-        c = c['case']
-    if not c or 'envs' not in c:
+        wrapper, c = c, c['case']
+    if isinstance(c, dict) and 'subst' in c:
+        explore_subst(ctx, [c])
+    elif not c or 'envs' not in c:
         print('replay file names no input (proof/correspondence obligation): re-run ./check C17')
         return 2
-    explore(ctx, [c])
+    elif 'twin' in wrapper:
+        explore(ctx, [c, wrapper['twin']], [(0, 1, wrapper.get('variable'))])
+    else:
+        explore(ctx, [c])
     for f in ctx.failures:
         print('REPRODUCED: %s' % f['what'])
     for f in ctx.disagreements:
